@@ -4,6 +4,7 @@ package oras
 
 import (
 	"bytes"
+	"fmt"
 	"context"
 	"encoding/json"
 	"errors"
@@ -155,6 +156,9 @@ func symDAG(K int) []vnode {
 		}
 		nodes = append(nodes, n)
 	}
+	for i := range nodes {
+		verifrt.Event(fmt.Sprintf("node%d kind=%d mt=%s links=%v foreign=%v subject=%v bytes=%q", i, nodes[i].kind, nodes[i].desc.MediaType, nodes[i].links, nodes[i].foreign, nodes[i].kind != kindBlob && bytes.Contains(nodes[i].bytes, []byte("subject")), string(nodes[i].bytes[:min(len(nodes[i].bytes), 4)])))
+	}
 	// distinct non-foreign children
 	for i := range nodes {
 		seen := map[int]bool{}
@@ -173,11 +177,12 @@ func sameDigest(a, b ocispec.Descriptor) bool {
 	return verifrt.StrEq(string(a.Digest), string(b.Digest))
 }
 
-// nodeIndex finds the generated nodes whose digest equals d (several nodes may collide when
-// blob bytes are equal); returns the first.
+// nodeIndex finds the first generated node that is the same content-addressed object as d:
+// same media type and digest (the stores key content by media type, digest and size, so the
+// same bytes under two media types are two objects).
 func nodeIndex(nodes []vnode, d ocispec.Descriptor) int {
 	for i := range nodes {
-		if len(nodes[i].desc.Digest) == len(d.Digest) && sameDigest(nodes[i].desc, d) {
+		if len(nodes[i].desc.Digest) == len(d.Digest) && nodes[i].desc.MediaType == d.MediaType && sameDigest(nodes[i].desc, d) {
 			return i
 		}
 	}
